@@ -322,6 +322,16 @@ def judge(ctx, case):
             else:
                 gv = B(got[1])[:80] if got[0] == 'ok' else got[1]
                 ctx.mismatch(f'C05|pack|{ic}|{shape(got, False)}', case, f'{fmt!r:.150}: got {gv!s:.80} expected {exp[:80]}')
+            # a positional str value that happens to be spelt like the name of a keyword argument is still that value
+            named = [v for v in vals if isinstance(v, str) and v.isidentifier() and v not in kw and v not in fmt]      # (not a text that is a token of the format)
+            if named and got[0] == 'ok':
+                extra = {v: Bits('0b1') for v in named[:2]}
+                got1 = call(lambda: B(pack(fmt, *vals, **kw, **extra)))
+                ctx.op('pack', 'ok' if got1[0] == 'ok' else type(got1[1]).__name__)
+                if got1 != ('ok', exp):
+                    ctx.mismatch(f'C05|pack-value-spelt-like-a-keyword|{ic}|{shape(got1, False)}', case, f'{fmt!r:.120} with extra keyword(s) {list(extra)}')
+                else:
+                    ctx.ok(('pack-value-like-keyword',) + key[:1], True)
             # list-of-strings format gives the same bits
             if len(tree) > 1 and got[0] == 'ok':
                 k = rng.randint(1, len(tree) - 1)
